@@ -228,6 +228,32 @@ def program_level(res, harness, tier, rng):
         others = owner("func", "drittes", "ein Ding mit <x> und <y>") + owner("struct", "viertes", "ein Ding bei <x>, <y>")
         reqs.append({"files": {"main.ddp": 'Binde "Duden/Ausgabe" ein.\n' + others + owner(k1, "erstes", pattern) + use}, "main": "main.ddp"})
         meta.append(("callable", 3, False, ("owners", k1, "with-siblings")))
+    # aliases a generic function's body uses are those of the *declaring* module as it is when the function is instantiated:
+    # a helper declared before or after the generic function, public or private, generic or not, stays callable from the body
+    # when the function is instantiated by another module that does not see the helper itself
+    helpers = {
+        "generic": ('Die %sgenerische Funktion Hole_Element mit den Parametern i und l vom Typ Zahl und T Liste, gibt ein T zurück, macht:\n'
+                    '\tGib l an der Stelle i zurück.\nUnd kann so benutzt werden:\n\t"hole <i> aus <l>"\n\n', "Gib (hole 1 aus l) zurück."),
+        "plain": ('Die %sFunktion Pos mit dem Parameter i vom Typ Zahl, gibt eine Zahl zurück, macht:\n'
+                  '\tGib i zurück.\nUnd kann so benutzt werden:\n\t"die Position <i>"\n\n', "Gib l an der Stelle (die Position 1) zurück."),
+    }
+    for hk, (hsrc, body) in helpers.items():
+        for vis in ("", "öffentliche "):
+            for where in ("before", "after"):
+                for imp in ("whole", "by-name"):
+                    for local_user in (False, True):
+                        g = ('Die öffentliche generische Funktion Erstes_Element mit dem Parameter l vom Typ T Liste, gibt ein T zurück, macht:\n'
+                             '\t%s\nUnd kann so benutzt werden:\n\t"das erste aus <l>"\n\n' % body)
+                        h = hsrc % vis
+                        mod = (h + g) if where == "before" else (g + h)
+                        if local_user:   # the declaring module instantiates it as well, below both
+                            mod += ('Die öffentliche Funktion Erstes_Lokal mit dem Parameter l vom Typ Zahlen Liste, gibt eine Zahl zurück, macht:\n'
+                                    '\tGib (das erste aus l) zurück.\nUnd kann so benutzt werden:\n\t"das lokale erste aus <l>"\n\n')
+                        main = 'Binde "Duden/Ausgabe" ein.\n' + ('Binde "Werkzeug" ein.\n' if imp == "whole" else 'Binde Erstes_Element aus "Werkzeug" ein.\n')
+                        main += ('Die Zahlen Liste zahlen ist eine Liste, die aus 7, 8, 9 besteht.\nDie Text Liste worte ist eine Liste, die aus "a", "b" besteht.\n'
+                                 'Schreibe die Zahl (das erste aus zahlen) auf eine Zeile.\nSchreibe den Text (das erste aus worte) auf eine Zeile.\n')
+                        reqs.append({"files": {"Werkzeug.ddp": mod, "main.ddp": main}, "main": "main.ddp"})
+                        meta.append(("callable", 2, False, ("generic-body-alias", hk, vis.strip() or "private", where, imp, local_user)))
     outs = corr.parse_many(harness, reqs)
     ALIAS_DUP = (error_codes()["SEM_ALIAS_ALREADY_DEFINED"], error_codes()["SEM_ALIAS_ALREADY_TAKEN"])
     res.evaluations += len(reqs)
